@@ -89,14 +89,14 @@ def ensure_shapes_tla():
             open(dst, 'w').write(new)
     os.unlink(tmp)
 
-def build_suite():
+def build_suite(std='c++14'):
     """The repository's OWN test programs (test/compiling_tests*.cpp = self_test, test/thread_terror.cpp) compiled from /repo's
     working tree with the guarded verification hooks and the event sink harness/suite/sink.cpp.  Cached by content hash."""
     tdir = os.path.join(REPO, 'test')
     tsrcs = [os.path.join(tdir, f) for f in sorted(os.listdir(tdir)) if f.endswith(('.cpp', '.hpp'))] if os.path.isdir(tdir) else []
     sink = os.path.join(HARNESS, 'suite', 'sink.cpp')
     h = tree_hash(tsrcs + [sink])
-    d = os.path.join(BUILD, 'suite-' + h)
+    d = os.path.join(BUILD, 'suite%s-%s' % (std[3:], h))
     with Lock(os.path.join(BUILD, 'suite.lock')):
         if os.path.exists(os.path.join(d, 'ok')):
             os.utime(d)
@@ -104,8 +104,9 @@ def build_suite():
         t0 = time.time()
         shutil.rmtree(d, ignore_errors=True)
         os.makedirs(d)
-        common = ['-std=c++14', '-O0', '-w', '-DROLLBEAR_TROMPELOEIL_VERIF', '-I' + INCLUDE]
-        units = [f for f in ('compiling_tests.cpp', 'compiling_tests_11.cpp', 'compiling_tests_14.cpp') if os.path.exists(os.path.join(tdir, f))]
+        common = ['-std=' + std, '-O0', '-w', '-DROLLBEAR_TROMPELOEIL_VERIF', '-I' + INCLUDE]
+        units = [f for f in ('compiling_tests.cpp', 'compiling_tests_11.cpp', 'compiling_tests_14.cpp') + (('test_co_mock.cpp',) if std == 'c++20' else ())
+                 if os.path.exists(os.path.join(tdir, f))]
         jobs = [(['g++'] + common + ['-DCATCH2_MAIN', '-DCATCH2_VERSION=2', '-c', os.path.join(tdir, f), '-o', f[:-4] + '.o'], d) for f in units]
         jobs.append((['g++'] + common + ['-DVERIF_WITH_CATCH2', '-c', sink, '-o', 'sink_catch.o'], d))
         if os.path.exists(os.path.join(tdir, 'thread_terror.cpp')):
@@ -124,7 +125,7 @@ def build_suite():
                 os.unlink(os.path.join(d, f[:-4] + '.o'))
         open(os.path.join(d, 'ok'), 'w').write('ok')
         log('built the repository\'s test programs with hooks in %.0fs' % (time.time() - t0))
-    prune_builds('suite')
+    prune_builds('suite' + std[3:])
     return d
 
 def build_seq():
